@@ -166,27 +166,27 @@ def run(run):
         site = F.loc(f["body"])
         rets = T.paths_to(f["body"], lambda x: x.get("k") == "Return")
         eq_ok = False
-        for n, conds in rets:
-            rv = sy.ev(n["e"], env) if "e" in n else None
-            if rv != ("lit", True):
-                continue
-            for cd in conds:
-                if cd[0] == "if" and cd[2]:
-                    c = sy.ev(cd[1], env)
-                    if is_call(c, "eq") and len(c[2]) == 2:
-                        sides = [fmt(x) for x in c[2]]
-                        ps = any("stack_pointer_register.size" in s0 for s0 in sides)
-                        val = any("try_to_u64" in s0 and "eval_parameter_arg" in s0 for s0 in sides)
-                        eq_ok = ps and val
-                    elif c[0] == "bin" and c[1] == "Eq":
-                        sides = [fmt(c[2]), fmt(c[3])]
-                        eq_ok = any("stack_pointer_register.size" in s0 for s0 in sides) and any("eval_parameter_arg" in s0 for s0 in sides)
+        cmp_other = []
+        for x in S.subterms(t):
+            sides = None
+            if is_call(x, ("eq", "ne", "lt", "le", "gt", "ge")) and len(x[2]) == 2:
+                sides, op = [fmt(a) for a in x[2]], x[1]
+            elif isinstance(x, tuple) and x and x[0] == "bin" and x[1] in ("Eq", "Ne", "Lt", "Le", "Gt", "Ge"):
+                sides, op = [fmt(x[2]), fmt(x[3])], x[1].lower()
+            if sides and any("eval_parameter_arg" in s0 for s0 in sides):
+                if op == "eq" and any("stack_pointer_register.size" in s0 for s0 in sides):
+                    eq_ok = True
+                else:
+                    cmp_other.append((op, sides))
+        eq_ok = eq_ok and not cmp_other
         run.check("R1", "sizeof|equals-pointer-size", eq_ok, "the sizeof-on-pointer check must compare the parameter's value for EQUALITY with the size of the stack pointer register (the pointer size of the analysed CPU), not a fixed number", site)
         fors = T.for_loops(f["body"])
         itt = sy.ev(fors[0][2], env) if fors else None
         all_params = itt is not None and any(isinstance(y, tuple) and y and y[0] == "field" and y[2] == "parameters" for y in S.subterms(itt)) and not any(is_call(y, ("take", "skip", "first", "last", "filter", "step_by", "nth", "rev")) for y in S.subterms(itt))
         tail = S.value(t)
-        any_sem = all_params and tail == ("lit", False) and any(sy.ev(n["e"], env) == ("lit", True) for n, _ in rets if "e" in n)
+        loop_rets = [sy.ev(n["e"], env) for n, _ in rets if "e" in n]
+        # inside the loop only `return true` may leave early: any other early return decides on the first examined parameter
+        any_sem = all_params and tail == ("lit", False) and bool(loop_rets) and all(r == ("lit", True) for r in loop_rets)
         run.check("R1", "sizeof|any-parameter", any_sem, "the check must hold if SOME parameter equals the pointer size: loop over all parameters, true on the first hit, false after the loop", site)
 
     run.guarded("R1", r1)
